@@ -950,7 +950,7 @@ def _node_at(forest, rel):
 def _bounded_generator(ctx):
     itertools, shutil, tempfile, PurePosixPath, path_ddvs, FilesCondition, matches_full, matches_non_full = \
         _bounded_imports()
-    max_nodes, max_depth = (5, 3) if ctx.tier == 'thorough' else (4, 3)
+    max_nodes, max_depth = (6, 3) if ctx.tier == 'thorough' else (4, 3)
     limits = [None, 0, 1, 2, 3]
     failures = []
     cases = 0
